@@ -2,7 +2,9 @@ package main
 
 import (
 	"fmt"
+	"github.com/google/go-cmp/cmp"
 	"math/rand/v2"
+	"reflect"
 	"sort"
 	"strings"
 
@@ -44,6 +46,10 @@ func c06Command(r *rand.Rand, uid *gen.UID) *pipeline.CommandStep {
 	}
 	if r.IntN(3) == 0 {
 		st.Plugins = pipeline.Plugins{{Source: "docker#v1", Config: map[string]any{"image": "alpine", "n": r.IntN(10)}}}
+		if r.IntN(2) == 0 {
+			// explicitly empty configs (mapping, list) and an absent one: signed as null, left as they are
+			st.Plugins = append(st.Plugins, &pipeline.Plugin{Source: "ecr#v2", Config: map[string]any{}}, &pipeline.Plugin{Source: "cache#v1", Config: []any{}}, &pipeline.Plugin{Source: "bare#v1"})
+		}
 	}
 	many := func(n int) map[string]any {
 		m := map[string]any{}
@@ -345,6 +351,11 @@ func checkC06(c *run.Ctx) {
 		allCommandSteps(twin, func(_ string, s *pipeline.CommandStep) { s.Signature = nil })
 		if diff := doc.Equal(modelToDocRaw(twin), modelToDocRaw(steps), doc.EqOpts{HonourOrderedKeys: true}); diff != "" {
 			c.Violation(id, desc("signing changed something other than attaching signatures: "+diff))
+			return
+		}
+		// the same with Go's own eyes: nil versus empty containers, unexported fields
+		if allFields := cmp.Exporter(func(reflect.Type) bool { return true }); !cmp.Equal(twin, steps, allFields) {
+			c.Violation(id, desc("signing changed something other than attaching signatures (deep comparison, nil and empty containers told apart): "+clip(cmp.Diff(twin, steps, allFields), 3000)))
 			return
 		}
 		if c.WantSample() && l.MaxDepth >= 2 {
